@@ -1499,6 +1499,7 @@ func main() {
 		t := &c01x.Tree{Kind: c01x.Compound, Keys: [][]byte{[]byte("B"), []byte("b")}, List: []*c01x.Tree{a, b}}
 		feed("shape.any-twice", i%2 == 0, t.Doc(i%2 == 0, nil), []string{"st:0", "any"}, "")
 	}
+	longArrays()
 	// ---- hand-written hostile inputs: 2^31-1 and 2^30 declared elements in a few bytes, every array kind,
 	//      lists of every element id, at the root and nested
 	for _, n := range []uint32{0x7fffffff, 0x40000002, 0x10000000, 1 << 20} {
